@@ -52,7 +52,7 @@ func verifH_C15_age() {
 //
 //verif:stub time.Now = verifC15Now
 //verif:stub (*github.com/Query-farm/vgi-rpc-go/vgirpc.HttpServer).openToken = verifC15OpenToken
-//verif:bound two instances sharing the key (A: cache size 1 or default, B: cache disabled); history = [continuation on A at t1 (cold: opens the call token), continuation on A and on B at t2>=t1]; TTL in [1,10^7] s; mint time, t1, t2 arbitrary instants; the two presented cursors carry arbitrary (later) mint times of their own; AEAD open + gob decode replaced by a stub returning an authentic token's fields
+//verif:bound two instances sharing the key (A: cache size 1 or default, B: cache disabled), built directly or configured through SetTokenTTL / SetCallStateCacheEntries in either order; history = [continuation on A at t1 (cold: opens the call token), continuation on A and on B at t2>=t1]; TTL in [1,10^7] s; mint time, t1, t2 arbitrary instants; the two presented cursors carry arbitrary (later) mint times of their own; AEAD open + gob decode replaced by a stub returning an authentic token's fields
 func verifH_C15_cache_transparent() {
 	ttlS := verifNondetInt64("ttl_s")
 	verifAssume(ttlS >= 1 && ttlS <= 10000000)
@@ -73,6 +73,23 @@ func verifH_C15_cache_transparent() {
 	}
 	hA := &HttpServer{tokenTTL: ttl, callStates: newCallStateCache(size, ttl)}
 	hB := &HttpServer{tokenTTL: ttl, callStates: newCallStateCache(0, ttl)}
+	// ... or configured the way an operator does it, through the setters, in either order
+	switch verifChoice("configured_by", 3) {
+	case 1:
+		hA, hB = &HttpServer{}, &HttpServer{}
+		hA.SetTokenTTL(ttl)
+		hA.SetCallStateCacheEntries(size)
+		hB.SetTokenTTL(ttl)
+		hB.SetCallStateCacheEntries(0)
+		verifReach("ttl-then-size")
+	case 2:
+		hA, hB = &HttpServer{}, &HttpServer{}
+		hA.SetCallStateCacheEntries(size)
+		hA.SetTokenTTL(ttl)
+		hB.SetTokenTTL(ttl)
+		hB.SetCallStateCacheEntries(0)
+		verifReach("size-then-ttl")
+	}
 	// cursors are re-minted every turn: each presented cursor carries its own
 	// (later) mint time, anywhere between the call's mint time and the request
 	cc1 := verifNondetInt64("cursor1.created")
